@@ -3,6 +3,7 @@ package keeper
 import (
 	"bytes"
 	"fmt"
+	"slices"
 	"sort"
 	"strconv"
 
@@ -13,6 +14,7 @@ import (
 	assetstype "github.com/ExocoreNetwork/exocore/x/assets/types"
 	"github.com/ExocoreNetwork/exocore/x/avs/types"
 	delegationtypes "github.com/ExocoreNetwork/exocore/x/delegation/types"
+	operatortypes "github.com/ExocoreNetwork/exocore/x/operator/types"
 	"github.com/cosmos/cosmos-sdk/store/prefix"
 	sdk "github.com/cosmos/cosmos-sdk/types"
 	"github.com/ethereum/go-ethereum/common"
@@ -167,6 +169,16 @@ func (k *Keeper) SetTaskResultInfo(
 			types.ErrTaskIsNotExists,
 			fmt.Sprintf("SetTaskResultInfo: task info not found: %s (Task ID: %d)",
 				info.TaskContractAddress, info.TaskId),
+		)
+	}
+
+	// only the operators of the task's opt-in snapshot take part in the task: the statistics at the
+	// end of the statistical period split exactly this list into signers and non-signers
+	if !slices.Contains(task.OptInOperators, info.OperatorAddress) {
+		return errorsmod.Wrap(
+			operatortypes.ErrNotOptedIn,
+			fmt.Sprintf("SetTaskResultInfo: operator %s was not opted in when task %d of %s was created",
+				info.OperatorAddress, info.TaskId, info.TaskContractAddress),
 		)
 	}
 
